@@ -912,3 +912,107 @@ def law_axis_rot_from_z(t):
         if not vclose(got, want, 1e-7):
             return f"axis_rot_from_z({fmt(v)}) = {fmt(r)} rotates the z axis onto {fmt(got)}, not onto {fmt(want)}"
     return None
+
+
+# ================================================================================================ exact clauses (rotations)
+# The table laws above decide the rotations on sampled angles.  The clauses below are exact: the function is evaluated once on
+# SYMBOLIC input (hh_sym: coordinates x0, x1, x2, an angle whose cosine / sine are the atoms C, S with S^2 = 1 - C^2, a unit axis
+# (U, V, W) with W^2 = 1 - U^2 - V^2); the returned coordinates are polynomials, the matrix of the map is read off as their
+# coefficients and the identities are decided on the normal forms.  Returns (verdict, text) with verdict 'ok' | 'fail' | 'undecided'.
+from . import hh_sym as SY
+from ..sym import Poly as _P
+
+
+def _matrix(comps, xs):
+    """rows of the matrix of a map whose components are polynomials, linear in the atoms xs"""
+    rows = []
+    for c in comps:
+        p = c.p if isinstance(c, SY.SymNum) else _P.const(SY.Fraction(c))
+        row = []
+        rest = p
+        for x in xs:
+            if p.degree_in(x) > 1:
+                raise Unknown("the result is not linear in the input vector")
+            co = p.coeff(x)
+            if any(y in co.atoms() for y in xs):
+                raise Unknown("the result is not linear in the input vector")
+            row.append(co)
+            rest = rest.without(x)
+        if not rest.is_zero():
+            raise Unknown("the result has a part that does not depend on the input vector")
+        rows.append(row)
+    return rows
+
+
+def _z(p):
+    return SY.reduce(p).is_zero()
+
+
+def _run_exact(body):
+    try:
+        return body()
+    except Unknown as ex:
+        return "undecided", f"outside the exactly evaluated subset: {ex}"
+    except Raised as ex:
+        return "undecided", f"the symbolic evaluation raises: {ex}"
+    except Exception as ex:  # noqa
+        return "undecided", f"the symbolic evaluation gave up: {type(ex).__name__}: {ex}"
+
+
+def exact_rotate_2d(t):
+    def body():
+        C, S = _P.atom("C"), _P.atom("S")
+        with SY.relations([("S", _P.const(1) - C * C)]):
+            th = SY.angle("theta", 0.7)
+            v = t.vec([SY.SymNum.atom("x0", 0.9), SY.SymNum.atom("x1", -1.3)])
+            r = t.call(t.g(ROT, "rotate_2d"), v, th, what="rotate_2d")
+            comps = t.nums(r)
+            if len(comps) != 2:
+                return "fail", f"the result has {len(comps)} components"
+            M = _matrix(comps, ["x0", "x1"])
+            want = [[C, -S], [S, C]]
+            bad = [(i, j) for i in range(2) for j in range(2) if not _z(M[i][j] - want[i][j])]
+            if bad:
+                i, j = bad[0]
+                mtm = all(_z(sum((M[k][a] * M[k][b] for k in range(2)), _P()) - _P.const(1 if a == b else 0)) for a in range(2) for b in range(2))
+                return "fail", (f"matrix entry ({i},{j}) is {SY.reduce(M[i][j])}, the rotation matrix [[cos, -sin], [sin, cos]] has {want[i][j]} there "
+                                f"(C = cos, S = sin of the angle; M^T M = I {'holds' if mtm else 'fails'} identically)")
+            return "ok", "matrix = [[C, -S], [S, C]] identically in the angle and the input"
+    return _run_exact(body)
+
+
+def exact_rotate_axis(t):
+    def body():
+        C, S, U, V, W = (_P.atom(a) for a in "CSUVW")
+        one = _P.const(1)
+        with SY.relations([("S", one - C * C), ("W", one - U * U - V * V)]):
+            th = SY.angle("theta", 0.7)
+            u0, v0 = 0.3, -0.5
+            w0 = math.sqrt(1 - u0 * u0 - v0 * v0)
+            axis = t.vec([SY.SymNum.atom("U", u0), SY.SymNum.atom("V", v0), SY.SymNum.atom("W", w0)])
+            inp = t.vec([SY.SymNum.atom("x0", 0.9), SY.SymNum.atom("x1", -1.3), SY.SymNum.atom("x2", 0.4)])
+            r = t.call(t.g(ROT, "rotate_around_axis"), inp, axis, th, what="rotate_around_axis")
+            comps = t.nums(r)
+            if len(comps) != 3:
+                return "fail", f"the result has {len(comps)} components"
+            R = _matrix(comps, ["x0", "x1", "x2"])
+            a = [U, V, W]
+            ortho = all(_z(sum((R[k][i] * R[k][j] for k in range(3)), _P()) - _P.const(1 if i == j else 0)) for i in range(3) for j in range(3))
+            det = SY.reduce(R[0][0] * (R[1][1] * R[2][2] - R[1][2] * R[2][1]) - R[0][1] * (R[1][0] * R[2][2] - R[1][2] * R[2][0])
+                            + R[0][2] * (R[1][0] * R[2][1] - R[1][1] * R[2][0]))
+            fixes = all(_z(R[i][0] * a[0] + R[i][1] * a[1] + R[i][2] * a[2] - a[i]) for i in range(3))
+            K = [[_P(), -W, V], [W, _P(), -U], [-V, U, _P()]]
+            rod = [[(C if i == j else _P()) + (one - C) * a[i] * a[j] + S * K[i][j] for j in range(3)] for i in range(3)]
+            same = all(_z(R[i][j] - rod[i][j]) for i in range(3) for j in range(3))
+            trace = SY.reduce(R[0][0] + R[1][1] + R[2][2])
+            if not ortho:
+                return "fail", "R^T R = I does not hold identically modulo cos^2 + sin^2 = 1 and |axis| = 1: the map is not an isometry"
+            if not (det == one):
+                return "fail", f"det R = {det}, not 1, identically: the map is not a proper rotation"
+            if not fixes:
+                return "fail", "R axis = axis does not hold identically: the axis is not fixed"
+            if not same:
+                return "fail", (f"R is an isometry fixing the axis but not Rodrigues' matrix of (axis, angle): trace R = {trace} instead of 1 + 2*C, "
+                                f"or the sense of rotation is reversed")
+            return "ok", "R^T R = I, det R = 1, R axis = axis and R = Rodrigues' matrix, identically modulo cos^2+sin^2 = 1 and |axis| = 1"
+    return _run_exact(body)
